@@ -110,6 +110,7 @@ def main():
             return to_int.get(tuple(x), -1)
         return x
     raising = set(spec.get("raising", []))
+    raising_empty = set(spec.get("raising_empty", []))  # tasks failing with an exception that carries no message (`raise ValueError()`, a bare assert)
     task_ms, task_jitter = spec.get("task_ms", 0), spec.get("task_jitter", False)
     cons_ms = spec.get("consumer_ms", 0)
     cb_ms = spec.get("callback_ms", 0)
@@ -146,6 +147,8 @@ def main():
             d = (dev_id * 2654435761 % 1000) / 1000.0 * task_ms * 2
         if d:
             time.sleep(d / 1000.0)
+        if dev_id in raising_empty:
+            raise ValueError()
         if dev_id in raising:
             raise ValueError("boom %s" % dev_id)
         return ["r", dev_id, dev_id * dev_id + salt, "x" * big]
